@@ -816,6 +816,12 @@ def topk(ctx, rr):
     """most-linked pages: min-heap keyed by indegree first, trimmed only when it exceeds k, drained into descending order"""
     P = ctx.P
     u = P.method('Traph', 'get_webentity_most_linked_pages_iter')
+    for c in P.own(u, ast.Call):
+        if ast.unparse(c.func) == 'heapq.heapreplace':
+            rr.ob(ctx.where(u, c), 'the bounded heap never evicts its minimum for a smaller newcomer', ok=False)
+            rr.fail(ctx.finding('R-TOPK', u, c, 'heapq.heapreplace pops the current minimum unconditionally: a page with a lower indegree than everything kept evicts a better one '
+                                '(heappushpop, or push then pop, keeps the top k)'))
+            return
     pushes_ = [c for c in P.own(u, ast.Call) if ast.unparse(c.func) == 'heapq.heappush']
     pops = [c for c in P.own(u, ast.Call) if ast.unparse(c.func) == 'heapq.heappop']
     if len(pushes_) != 1 or len(pops) != 2:
